@@ -56,7 +56,9 @@ func SafeMul[T Integer](x T, y T) (T, error) {
 
 	result := x * y
 
-	if result/x != y {
+	// result/x == y also holds for MinInt * -1, where the product wraps around to MinInt and
+	// MinInt / -1 wraps around again: two negative factors never have a negative product.
+	if result/x != y || (x < 0 && y < 0 && result < 0) {
 		return 0, ierrors.WithMessagef(ErrIntegerOverflow, "%d * %d", x, y)
 	}
 
